@@ -8,7 +8,9 @@ VERDICT = 'C10_verdict'
 PROPS_FILE = 'theories/Props/C10.v'
 THEOREM = 'C10_no_dead_receiver'
 CASE_TIMEOUT = 1
-RULE = ('as C10\'s sibling C04 (blocks of disable / dispatches / enable over scripted handlers) plus '
+RULE = ('in 35 % of the cases the handler classes make their instances falsy (__bool__ False or '
+        '__len__ 0; identity and default equality untouched); '
+        'as C10\'s sibling C04 (blocks of disable / dispatches / enable over scripted handlers) plus '
         'Drop actions at top level and inside callbacks, i.e. between two callbacks of one '
         'dispatch or release: the only strong reference to a handler is a harness variable, a '
         'component slot of a separate World, or - in the half of the cases whose dispatcher is a '
